@@ -144,11 +144,17 @@ impl PropertyValue {
 
     /// Decode property value from bytes.
     pub fn decode(bytes: &[u8]) -> Result<Self, DecodeError> {
-        let (value, _) = Self::decode_recursive(bytes)?;
+        let (value, _) = Self::decode_recursive(bytes, 0)?;
         Ok(value)
     }
 
-    fn decode_recursive(bytes: &[u8]) -> Result<(Self, usize), DecodeError> {
+    /// Nesting depth accepted by `decode`; deeper input is rejected instead of overflowing the stack.
+    const MAX_DECODE_DEPTH: usize = 128;
+
+    fn decode_recursive(bytes: &[u8], depth: usize) -> Result<(Self, usize), DecodeError> {
+        if depth > Self::MAX_DECODE_DEPTH {
+            return Err(DecodeError::NestingTooDeep);
+        }
         if bytes.is_empty() {
             return Err(DecodeError::Empty);
         }
@@ -214,9 +220,10 @@ impl PropertyValue {
                     u32::from_le_bytes(bytes[1..5].try_into().expect("slice length checked"))
                         as usize;
                 let mut pos = 5;
-                let mut items = Vec::with_capacity(count);
+                // Every item takes at least one byte: never reserve more than the input can hold.
+                let mut items = Vec::with_capacity(count.min(bytes.len()));
                 for _ in 0..count {
-                    let (item, consumed) = Self::decode_recursive(&bytes[pos..])?;
+                    let (item, consumed) = Self::decode_recursive(&bytes[pos..], depth + 1)?;
                     items.push(item);
                     pos += consumed;
                 }
@@ -247,7 +254,7 @@ impl PropertyValue {
                     let key = String::from_utf8(bytes[pos..pos + k_len].to_vec())
                         .map_err(|_| DecodeError::InvalidUtf8)?;
                     pos += k_len;
-                    let (val, consumed) = Self::decode_recursive(&bytes[pos..])?;
+                    let (val, consumed) = Self::decode_recursive(&bytes[pos..], depth + 1)?;
                     map.insert(key, val);
                     pos += consumed;
                 }
@@ -272,6 +279,7 @@ pub enum DecodeError {
     InvalidLength,
     InvalidUtf8,
     UnknownType(u8),
+    NestingTooDeep,
 }
 
 impl std::fmt::Display for DecodeError {
@@ -281,6 +289,7 @@ impl std::fmt::Display for DecodeError {
             DecodeError::InvalidLength => write!(f, "invalid property value length"),
             DecodeError::InvalidUtf8 => write!(f, "invalid UTF-8 in string property"),
             DecodeError::UnknownType(ty) => write!(f, "unknown property value type: {ty}"),
+            DecodeError::NestingTooDeep => write!(f, "property value is nested too deeply"),
         }
     }
 }
